@@ -40,7 +40,11 @@ import (
 // one stage of the item chain. kind: 'T' transparent, 'M' masks a failure of the items in set (answers success
 // instead), 'R' refuses the items in set without calling next (returns (nil, error)), 'E' lets the items in set
 // through and then reports an error together with the response item, 'P' panics on the items in set without
-// calling next, 'Q' lets them through and then panics. A panic unwinds through the stages around it (a masking
+// calling next, 'Q' lets them through and then panics; and the ways a stage can fail an item AFTER the rest of the
+// chain (and the handler, which may have stored a placeholder) ran: 'F' marks the response item OperationFailed
+// ITSELF (reason, message; a fresh item when next gave none) and also returns the error, 'G' marks it failed and
+// returns NO error, 'N' returns (nil, error), 'K' returns (nil, nil); 'D' denies without calling next by returning
+// a fresh item it marked OperationFailed together with the error. A panic unwinds through the stages around it (a masking
 // stage cannot mask it) up to the last-resort recovery of executeItemWithMiddleware, which must fail THIS item
 // only (echoing operation and id) and let the batch go on.
 type bmwStage struct {
@@ -75,7 +79,7 @@ func bmwRenderChain(c []bmwStage) string {
 func bmwParseChain(s string) ([]bmwStage, error) {
 	var out []bmwStage
 	for _, p := range strings.Split(s, ",") {
-		if p == "" || !strings.Contains("TMREPQ", p[:1]) {
+		if p == "" || !strings.Contains(bmwKinds, p[:1]) {
 			return nil, fmt.Errorf("bad stage %q", p)
 		}
 		st := bmwStage{kind: p[0], set: map[int]bool{}}
@@ -92,6 +96,8 @@ func bmwParseChain(s string) ([]bmwStage, error) {
 	}
 	return out, nil
 }
+
+const bmwKinds = "TMREPQFGNKD"
 
 type bmwLog struct {
 	enter [][]int // per stage: item indices it was entered for, in order
@@ -139,6 +145,29 @@ func bmwExecutor(r *bReq, chain []bmwStage, log *bmwLog) *kmipserver.BatchExecut
 			case st.kind == 'E' && st.set[i]:
 				resp, _ := next(ctx, bi)
 				return resp, kmipserver.Error{Reason: kmip.ResultReasonGeneralFailure, Message: "failed by middleware"}
+			case st.kind == 'F' && st.set[i], st.kind == 'G' && st.set[i]:
+				resp, _ := next(ctx, bi)
+				if resp == nil {
+					resp = &kmip.ResponseBatchItem{Operation: bi.Operation, UniqueBatchItemID: bi.UniqueBatchItemID}
+				}
+				resp.ResponsePayload = nil
+				resp.ResultStatus = kmip.ResultStatusOperationFailed
+				resp.ResultReason = kmip.ResultReasonPermissionDenied
+				resp.ResultMessage = "denied by middleware"
+				if st.kind == 'G' {
+					return resp, nil
+				}
+				return resp, kmipserver.Error{Reason: kmip.ResultReasonPermissionDenied, Message: "denied by middleware"}
+			case st.kind == 'N' && st.set[i]:
+				_, _ = next(ctx, bi)
+				return nil, kmipserver.Error{Reason: kmip.ResultReasonPermissionDenied, Message: "dropped by middleware"}
+			case st.kind == 'K' && st.set[i]:
+				_, _ = next(ctx, bi)
+				return nil, nil
+			case st.kind == 'D' && st.set[i]:
+				return &kmip.ResponseBatchItem{Operation: bi.Operation, UniqueBatchItemID: bi.UniqueBatchItemID,
+					ResultStatus: kmip.ResultStatusOperationFailed, ResultReason: kmip.ResultReasonPermissionDenied, ResultMessage: "denied by middleware",
+				}, kmipserver.Error{Reason: kmip.ResultReasonPermissionDenied, Message: "denied by middleware"}
 			case st.kind == 'P' && st.set[i]:
 				panic("scripted: batch item middleware panics")
 			case st.kind == 'Q' && st.set[i]:
@@ -207,6 +236,8 @@ func bmwPredict(r *bReq, chain []bmwStage) (failed []bool, calls []int, enter []
 				return out{err: true}
 			case 'P':
 				return out{failedResp: true, unwinding: true}
+			case 'D':
+				return out{failedResp: true, err: true}
 			}
 			x := eval(k + 1)
 			if x.unwinding {
@@ -219,6 +250,14 @@ func bmwPredict(r *bReq, chain []bmwStage) (failed []bool, calls []int, enter []
 				return out{failedResp: x.failedResp, err: true}
 			case 'Q':
 				return out{failedResp: true, unwinding: true}
+			case 'F':
+				return out{failedResp: true, err: true}
+			case 'G':
+				// the item leaves the chain failed but WITHOUT an error: handleBatchItemError is not called, the
+				// placeholder stays as the handler left it (the code of today; the property text does not demand more)
+				return out{failedResp: true}
+			case 'N', 'K':
+				return out{err: true} // (nil, nil) becomes "No response for batch item"
 			}
 			return x
 		}
@@ -401,7 +440,7 @@ func bmwRender(resp *kmip.ResponseMessage, log *bmwLog) string {
 func bmwRandomChain(r *rng.R, n int) []bmwStage {
 	var chain []bmwStage
 	for k := 1 + r.Intn(3); k > 0; k-- {
-		st := bmwStage{kind: rng.Pick(r, []byte{'T', 'T', 'M', 'M', 'R', 'E', 'P', 'Q'}), set: map[int]bool{}}
+		st := bmwStage{kind: rng.Pick(r, []byte{'T', 'T', 'M', 'M', 'R', 'E', 'P', 'Q', 'F', 'F', 'G', 'N', 'K', 'D'}), set: map[int]bool{}}
 		if st.kind != 'T' {
 			for i := 0; i < n; i++ {
 				if r.Chance(1, 3) {
@@ -430,7 +469,7 @@ func runBatchMw(ctx *Ctx) {
 				bmwCase(ctx, q, []bmwStage{{kind: 'T'}}, "exhaustive")
 				bmwCase(ctx, q, []bmwStage{{kind: 'T'}, {kind: 'T'}}, "exhaustive")
 				for pos := 0; pos < n; pos++ {
-					for _, k := range []byte{'M', 'R', 'E', 'P', 'Q'} {
+					for _, k := range []byte{'M', 'R', 'E', 'P', 'Q', 'F', 'G', 'N', 'K', 'D'} {
 						bmwCase(ctx, q, []bmwStage{{kind: 'T'}, {kind: k, set: map[int]bool{pos: true}}}, "exhaustive")
 						bmwCase(ctx, q, []bmwStage{{kind: k, set: map[int]bool{pos: true}}, {kind: 'T'}}, "exhaustive")
 					}
@@ -455,7 +494,7 @@ func runBatchMw(ctx *Ctx) {
 		}
 	}
 	// C15 under item middlewares, small: [set 5 ; (set 6, then every outcome) under every stage kind ; read]
-	for _, k := range []byte{'T', 'M', 'R', 'E', 'P', 'Q'} {
+	for _, k := range []byte(bmwKinds) {
 		for o := 0; o < nOutcomes; o++ {
 			for _, opt := range []uint32{0, 2} {
 				mid := alphabetItem(1, o, true)
